@@ -47,6 +47,6 @@ Definition ex_doc : anode :=
   build [EvStart (QN [] [97%N]); EvStart (QN [] [98%N]); EvAttr (QN [] [105%N]) [49%N]; EvEnd;
          EvStart (QN [] [99%N]); EvEnd; EvEnd].
 Example C18_example_from_attribute :
-  exec (Env ex_doc [SCh 0; SCh 0; SAt 0] [] [] [])
+  exec (Env ex_doc [SCh 0; SCh 0; SAt 0] [] [] [] false)
        (EPath false [SAxis Parent NTNode []; SAxis FollowingSibling NTAny []]) = Ok (VNodes [[SCh 0; SCh 1]]).
 Proof. vm_compute. reflexivity. Qed.
